@@ -8,7 +8,7 @@ from bsv.linmodel import LinInterp, LinModel
 
 PROP = 'C14'
 LEVEL = 'other'
-UNITS = ['w_convert.cpp', 'w_archives.cpp']
+UNITS = ['w_convert.cpp', 'w_archives.cpp', 'msgpack_writers.cpp', 'msgpack_readers.cpp']
 EXPLANATION = ('Calendar correctness and the exact print/parse round trip are integer arithmetic over 2^64 instants and are NOT decided '
                '(DESIGN.md section 6). Decided is one necessary structural clause of "the text form is the correct date-time": the text is '
                'produced inside its buffer. R14.1: in PrintIsoUtc and PrintDurationPart every character is stored at a position p with '
@@ -146,6 +146,21 @@ def run(prog, rep):
                       '[0, 999999999] (shared with C06 R6.3): negative sub-second values survive the MsgPack form', floor=4)
     from rules import c06
     c06.check_floor_split(prog, rep, 'R14.4')
+    # the binary timestamp form of both MsgPack writers / readers (tables shared with C06 R6.1 and C07 R7.1)
+    rep.rule('R14.5', 'MsgPack binary form of a timestamp, both writers: over the (seconds, nanoseconds) cells the layout (timestamp 32 / 64 / 96) is '
+                      'the one that holds the value - no seconds bits are dropped by choosing a narrower layout', floor=20)
+    orders = c06.check_timestamp_writers(prog, rep, 'R14.5')
+    rep.rule('R14.6', 'MsgPack binary form of a timestamp, both readers: every timestamp layout is decoded into (seconds, nanoseconds) with the '
+                      'widths, masks and shifts of the layout', floor=6)
+    rep.rule('R14.6x', 'MsgPack timestamp readers leave the cursor behind the value', floor=6)
+    from rules import msgpack_tables
+    if len(orders) != 1:
+        rep.finding('R14.6', 'timestamp 96|field order of the writers', 'src/msgpack/msgpack_writers.cpp', 'the MsgPack writers emit the two fields of the '
+                    '96-bit timestamp in different orders (%s): no reader can load both back' % sorted(orders))
+        orders = {('NS', 'SEC')}
+    first = 'seconds' if list(orders)[0][:1] == ('SEC',) else 'nanoseconds'
+    # the readers must take the 96-bit layout in the order the library's own writers emit it (conformance of that order is C06/C07's business)
+    msgpack_tables.check_accept_tables(prog, rep, 'R14.6', 'R14.6x', families=('timestamp',), declare=False, value_types=False, ts96_first=first)
 
     rep.rule('R14.2', 'callers: the buffer passed to PrintIsoUtc / the duration printer is a local char array passed together with its own end', floor=3)
     n2 = 0
